@@ -103,6 +103,28 @@ def ntt_overrides(log):
             '<Polynomial<Felt> as Add>::add': ov_add, '<Polynomial as Add>::add': ov_add}
 
 
+def fit(t, w, signed_src=True):
+    """the 2's-complement value of term t at width w (the operands compared here are far below 2^15 in magnitude, the abstract squares
+    non-negative and below 2^31, so truncation / extension preserves them): lets the oracle follow code that squares or sums in
+    another integer width than the pinned i64"""
+    if t.size() == w:
+        return t
+    if t.size() > w:
+        return z3.Extract(w - 1, 0, t)
+    return z3.SignExt(w - t.size(), t) if signed_src else z3.ZeroExt(w - t.size(), t)
+
+
+def compared_widths(ex, st):
+    """bit widths of the integer comparisons (as the code wrote them) whose operand is built from the abstract squares: the
+    accumulator that meets sig_bound"""
+    sqn = set(str(sq) for (_, _, sq, _) in st.env.get('squares', ()))
+    out = []
+    for ty, t in ex.user.get('cmp_log', []):
+        if hasattr(t, 'get_id') and sqn & set(ex.vars_of(t)):
+            out.append(WIDTH[ty])
+    return out
+
+
 def rv_sum_ty(ex):
     ts = [t for t, _ in ex.user.get('sum_types', [])]
     return ts[-1] if ts else 'i64'
@@ -229,30 +251,30 @@ def verify_scen(n, variant, mode, L=None, deadline_s=None, tag=''):
             hit = None
             for j, (kid, x, sq, k) in enumerate(st.env.get('squares', ())):
                 if j in used: continue
-                ok, _ = ex.check_local(x != expect)
+                ok, _ = ex.check_local(x != fit(expect, x.size()))
                 out['checks'] += 1
                 if not ok:
                     hit = j; break
             if hit is None:
                 # exhibit a value for which no squared operand of the code equals the specification's
-                conds = [x != expect for j, (kid, x, sq, k) in enumerate(st.env.get('squares', ())) if j not in used]
+                conds = [x != fit(expect, x.size()) for j, (kid, x, sq, k) in enumerate(st.env.get('squares', ())) if j not in used]
                 okm, mm = ex.check(*conds) if conds else (True, ex.model())
                 mm = mm or ex.model()
                 out['bad'].append({'kind': 'the norm does not include the square of %s (as the specification defines it)' % name, 'model': mi(ex, mm), 'wiring': True,
                                    's2': [ex.eval_int(mm, v) for v in s2], 's1': [spec.centred(mm.eval(x, model_completion=True).as_long()) for x in s1]})
                 return
             used.add(hit)
-            total = total + st.env.get('squares', ())[hit][2]
+            total = total + fit(st.env.get('squares', ())[hit][2], 64, signed_src=False)
         norm = total
         # production sizes: the accumulators must hold n_prod * (largest term). Terms are the abstracted squares (<= 2^(2k)).
         out['checks'] += 1
         kmax = max([k for (_, _, _, k) in st.env.get('squares', ())] or [0])
-        widths = [WIDTH[t] for t, _ in ex.user.get('sum_types', [])] + [WIDTH[rv_sum_ty(ex)]]
+        widths = [WIDTH[t] for t, _ in ex.user.get('sum_types', [])] + [WIDTH[rv_sum_ty(ex)]] + compared_widths(ex, st)
         need = 1 + 10 + 2 * kmax + 1            # sign + log2(1024) + bits of one square + one more for the final s1+s2 addition
         if min(widths) < need and not out.get('width_reported'):
             out['width_reported'] = True
             out['bad'].append({'kind': 'accumulator too narrow for the production degrees: %d-bit sums, %d bits needed for 1024 terms of up to 2^%d' % (min(widths), need, 2 * kmax),
-                               'model': None, 'wiring': True, 'width': True, 's1': None, 's2': None})
+                               'model': None, 'wiring': True, 'width': True, 'width_bits': min(widths), 's1': None, 's2': None})
         accept = total <= z3.BitVecVal(bound, 64)
         ok, m = ex.check_local(rvt != accept)
         if ok:
